@@ -537,7 +537,7 @@ impl Chip126x {
                         resp.push(self.status_byte());
                     } else {
                         let k = i - skip;
-                        if (off as usize + k) > 255 {
+                        if (off as usize + k) == 256 {
                             env.bump("probe.chip-buffer-wrap-around-read");
                         }
                         resp.push(self.buf[off.wrapping_add(k as u8) as usize]);
